@@ -11,7 +11,7 @@ use serde_json::json;
 pub static META: Meta = Meta {
     id: "C04",
     level: "exploration",
-    rule: "generated stratified programs x EDB; (a) every permutation of the clauses in front of the query clause for <= 5 such clauses (24 sampled permutations beyond) and one variant with a duplicated clause must give the canonical order's answer; (b) the same program on an engine that already evaluated 1-6 other generated programs (bound recursive queries, aggregates, negation) over the same base facts must give the fresh engine's answer; (c) the engine's base facts (input_tuples) must be identical before and after every evaluation; (d) the same rule set registered as persistent rules in two shuffled orders in two stores (and after restart) must answer alike; non-trivial = canonical answer non-empty and >= 2 permutable clauses; distinct = program + EDB",
+    rule: "generated stratified programs x EDB; (a) every permutation of the clauses in front of the query clause for <= 5 such clauses (24 sampled permutations beyond) and one variant with a duplicated clause must give the canonical order's answer; (b) the same program on an engine that already evaluated 1-6 other generated programs (bound recursive queries, aggregates, negation) over the same base facts must give the fresh engine's answer; (c) the engine's base facts (input_tuples) must be identical before and after every evaluation; (e) handler-style bound queries `__query__(_c0, ..) <- h(_c0, ..), _c0 = k` for two constants on one engine vs a fresh engine; (d) the same rule set registered as persistent rules in two shuffled orders in two stores (and after restart) must answer alike; non-trivial = canonical answer non-empty and >= 2 permutable clauses; distinct = program + EDB",
     assumptions: &["the query clause stays last (the API returns the relation of the last rule's head)", "reference = canonical clause order on a fresh engine; C01 ties that to the least model"],
     floor: 40,
     watchdog: (0, 0),
@@ -19,6 +19,12 @@ pub static META: Meta = Meta {
 
 fn run_clauses(cs: &[Clause], edb: &refdl::Db) -> Result<refdl::Rel, String> {
     run_text(&refdl::program_text(cs), edb, &RunOpts::default()).map(|a| a.set())
+}
+
+/// the relations that existed before must be unchanged; relations the engine adds for its own use
+/// (magic-set seeds and the like) are not stored base facts
+fn same_base(now: &std::collections::HashMap<String, Vec<inputlayer::Tuple>>, before: &std::collections::HashMap<String, Vec<inputlayer::Tuple>>) -> bool {
+    before.iter().all(|(k, v)| now.get(k) == Some(v))
 }
 
 fn perms(n: usize, r: &mut crate::rng::Rng) -> Vec<Vec<usize>> {
@@ -55,7 +61,7 @@ fn perms(n: usize, r: &mut crate::rng::Rng) -> Vec<Vec<usize>> {
 }
 
 pub fn run(ctx: &mut Ctx) {
-    let total = ctx.sz(300, 10_000);
+    let total = ctx.sz(600, 10_000);
     let opts = GenOpts { union: 40, ..GenOpts::default() };
     for k in ctx.cases(total) {
         let mut r = ctx.rng(k);
@@ -117,18 +123,44 @@ pub fn run(ctx: &mut Ctx) {
             load_edb(&mut e, &p.edb);
             let base0 = e.input_tuples().clone();
             let mut prev_texts = Vec::new();
+            // the earlier programs: random ones, plus variants of the program itself whose constants
+            // are shifted (same relations, same binding pattern, other values) - those share hidden
+            // per-query state such as magic-set seeds with the program under test
+            let mut earlier: Vec<String> = Vec::new();
+            for v in 1..=2i64 {
+                let mut q = p.clone();
+                let mut changed = false;
+                for c in q.clauses.iter_mut() {
+                    for l in c.body.iter_mut() {
+                        if let refdl::Lit::Pos(a) = l {
+                            for t in a.args.iter_mut() {
+                                if let refdl::Term::C(refdl::V::I(x)) = t {
+                                    *x = (*x + v) % 5;
+                                    changed = true;
+                                }
+                            }
+                        }
+                    }
+                }
+                if changed {
+                    earlier.push(q.text());
+                }
+            }
             for _ in 0..nprev {
                 let mut q = gen_program(&mut r, &hist_opts);
                 q.edb = p.edb.clone();
-                let t = q.text();
+                earlier.push(q.text());
+            }
+            r.shuffle(&mut earlier);
+            for t in earlier {
                 let _ = e.execute_tuples(&t);
                 prev_texts.push(t);
-                if *e.input_tuples() != base0 {
+                if !same_base(e.input_tuples(), &base0) {
                     return Err(("base-facts-changed-by-evaluation".to_string(), prev_texts, None));
                 }
             }
             let ans = e.execute_tuples(&p.text()).map(|raw| raw.iter().map(tuple_to_tup).collect::<refdl::Rel>());
-            if *e.input_tuples() != base0 {
+            if !same_base(e.input_tuples(), &base0) {
                 return Err(("base-facts-changed-by-evaluation".to_string(), prev_texts, None));
             }
             match ans {
@@ -147,6 +179,47 @@ pub fn run(ctx: &mut Ctx) {
             Err(pn) => {
                 ctx.inconclusive(format!("case {k}: panic in history run: {pn}"));
             }
+        }
+        // (e) handler-style bound queries (`?h(k, V..)` is sent to the engine as a `__query__` rule whose
+        // first argument is bound through an equality): the same engine asked for k1 and then k2 must
+        // answer k2 like a fresh engine does
+        let mut idb: Vec<(String, usize)> = Vec::new();
+        for c in &front {
+            if !idb.iter().any(|(h, _)| h == &c.head) && !c.hargs.iter().any(|h| matches!(h, refdl::HeadArg::Agg(..))) {
+                idb.push((c.head.clone(), c.hargs.len()));
+            }
+        }
+        let rules_text = refdl::program_text(&front);
+        let mut bad_e = false;
+        for (h, ar) in idb.iter().take(2) {
+            if bad_e {
+                break;
+            }
+            let vars: Vec<String> = (1..*ar).map(|i| format!("V{i}")).collect();
+            let q_of = |kc: i64| -> String {
+                let args = std::iter::once("_c0".to_string()).chain(vars.iter().cloned()).collect::<Vec<_>>().join(", ");
+                format!("{rules_text}\n__query__({args}) <- {h}({args}), _c0 = {kc}")
+            };
+            let fresh = |kc: i64| run_text(&q_of(kc), &p.edb, &RunOpts::default()).map(|a| a.set());
+            let (k1, k2) = (r.range(0, 4), r.range(0, 4));
+            let res = guarded(|| {
+                let mut e = IQLEngine::new();
+                load_edb(&mut e, &p.edb);
+                let _ = e.execute_tuples(&q_of(k1));
+                let _ = e.execute_tuples(&q_of(k1));
+                e.execute_tuples(&q_of(k2)).map(|raw| raw.iter().map(tuple_to_tup).collect::<refdl::Rel>())
+            });
+            ctx.evals(4);
+            if let (Ok(want), Ok(got)) = (fresh(k2), res) {
+                ctx.count("bound_query_pairs");
+                if got.as_ref().ok() != Some(&want) {
+                    ctx.violation(k, &format!("C04:bound-query-depends-on-earlier-bound-query:{f}"), format!("`?{h}({k2}, ..)` after `?{h}({k1}, ..)` on one engine differs from a fresh engine"), json!({"program": p.to_json(), "relation": h, "first_constant": k1, "second_constant": k2, "fresh_answer": rel_json(&want), "used_engine_outcome": match got { Ok(g) => rel_json(&g), Err(e) => json!(e) }}));
+                    bad_e = true;
+                }
+            }
+        }
+        if bad_e {
+            continue;
         }
         // (d) persistent rules registered in two orders (1 case in 8: stores are slow)
         if k % 8 == 0 && !front.is_empty() && front.iter().all(|c| !c.hargs.iter().any(|h| matches!(h, refdl::HeadArg::Agg(..)))) {
